@@ -667,7 +667,8 @@ class Forcing(BaseForce):
 
         i0 = self.grid.i0
         j0 = self.grid.j0
-        # K, A = z2s(self.grid.z_r, X - i0, Y - j0, Z)
+        # The particle arrays may have been compactified since update()
+        K, A = z2s(self.grid.z_r, X - i0, Y - j0, Z)
         if fractional_step < 0.001:
             U = self.fields["u"]
             V = self.fields["v"]
@@ -675,8 +676,8 @@ class Forcing(BaseForce):
             U = self.fields["u"] + fractional_step * self.fields["dU"]
             V = self.fields["v"] + fractional_step * self.fields["dV"]
         if self.time_reversal:
-            return sample3DUV(-U, -V, X - i0, Y - j0, self.K, self.A, method=method)
-        return sample3DUV(U, V, X - i0, Y - j0, self.K, self.A, method=method)
+            return sample3DUV(-U, -V, X - i0, Y - j0, K, A, method=method)
+        return sample3DUV(U, V, X - i0, Y - j0, K, A, method=method)
 
     # Simplify to grid cell
     # def field(
